@@ -62,7 +62,7 @@ func genC03(t *rapid.T) *c03Case {
 			}
 		}
 	} else {
-		c.Img = gen.DrawImg(t, gen.ImgCfg{MaxSide: max + 20, BigChance: 3, BigSide: 200, Kinds: []string{"nrgba"}, Places: []string{"tight"}})
+		c.Img = gen.DrawImg(t, gen.ImgCfg{MaxSide: max + 20, BigChance: 3, BigSide: 200, LargePermille: 8, ThinPermille: 8, Kinds: []string{"nrgba"}, Places: []string{"tight"}})
 	}
 	return c
 }
